@@ -346,3 +346,11 @@ func ltIs(v *Val, canon string) bool {
 	a, ok := ltForm(v)
 	return ok && a.String() == canon
 }
+
+func condsString(cs []Cond) string {
+	var ss []string
+	for _, c := range cs {
+		ss = append(ss, c.String())
+	}
+	return strings.Join(ss, " && ")
+}
